@@ -120,13 +120,31 @@ use std::time::{Duration, SystemTime, UNIX_EPOCH};
 /// need a consistent value users can pass to indicate "bypass cache" behavior.
 const O_DIRECT: i32 = 0x4000;
 
+/// Turn the errno text reported by [`crate::Fs`] into an `io::Error` of the
+/// kind `std::fs` reports for that errno (EEXIST -> `AlreadyExists`, ...), so
+/// callers matching on `ErrorKind` behave as with the real file system. The
+/// message is kept.
+fn errno_error(msg: &'static str) -> Error {
+    let kind = match msg {
+        "No such file or directory" => ErrorKind::NotFound,
+        "File exists" => ErrorKind::AlreadyExists,
+        "Directory not empty" => ErrorKind::DirectoryNotEmpty,
+        "Not a directory" => ErrorKind::NotADirectory,
+        "Is a directory" => ErrorKind::IsADirectory,
+        "Invalid argument" => ErrorKind::InvalidInput,
+        "No space left on device" => ErrorKind::StorageFull,
+        _ => ErrorKind::Other,
+    };
+    Error::new(kind, msg)
+}
+
 /// Creates a new directory at the provided path.
 ///
 /// Like file creation, directory creation is not durable until the parent
 /// directory is synced.
 pub fn create_dir<P: AsRef<Path>>(path: P) -> Result<()> {
     let path = path.as_ref().to_path_buf();
-    FsContext::current(|ctx| ctx.fs.mkdir(&path, ctx.now).map_err(Error::other))
+    FsContext::current(|ctx| ctx.fs.mkdir(&path, ctx.now).map_err(errno_error))
 }
 
 /// Creates a directory and all of its parent components if they are missing.
@@ -160,7 +178,7 @@ pub fn create_dir_all<P: AsRef<Path>>(path: P) -> Result<()> {
             if ctx.fs.file_exists(&dir) {
                 return Err(not_a_dir_or_exists(&dir, &path));
             }
-            ctx.fs.mkdir(&dir, ctx.now).map_err(Error::other)?;
+            ctx.fs.mkdir(&dir, ctx.now).map_err(errno_error)?;
         }
         Ok(())
     })
@@ -180,7 +198,7 @@ fn not_a_dir_or_exists(found: &Path, target: &Path) -> Error {
 /// Removes an empty directory.
 pub fn remove_dir<P: AsRef<Path>>(path: P) -> Result<()> {
     let path = path.as_ref().to_path_buf();
-    FsContext::current(|ctx| ctx.fs.rmdir(&path).map_err(Error::other))
+    FsContext::current(|ctx| ctx.fs.rmdir(&path).map_err(errno_error))
 }
 
 /// Syncs a directory, making its entries durable.
@@ -248,7 +266,7 @@ pub fn remove_dir<P: AsRef<Path>>(path: P) -> Result<()> {
 /// ```
 pub fn sync_dir<P: AsRef<Path>>(path: P) -> Result<()> {
     let path = path.as_ref().to_path_buf();
-    FsContext::current(|ctx| ctx.fs.sync_dir(&path, ctx.now).map_err(Error::other))
+    FsContext::current(|ctx| ctx.fs.sync_dir(&path, ctx.now).map_err(errno_error))
 }
 
 /// Removes a file from the filesystem.
@@ -275,7 +293,7 @@ pub fn remove_file<P: AsRef<Path>>(path: P) -> Result<()> {
 pub fn rename<P: AsRef<Path>, Q: AsRef<Path>>(from: P, to: Q) -> Result<()> {
     let from = from.as_ref().to_path_buf();
     let to = to.as_ref().to_path_buf();
-    FsContext::current(|ctx| ctx.fs.rename(&from, &to).map_err(Error::other))
+    FsContext::current(|ctx| ctx.fs.rename(&from, &to).map_err(errno_error))
 }
 
 /// Returns `true` if the path points at an existing entity.
@@ -682,7 +700,7 @@ impl File {
                 .ok_or_else(|| Error::new(ErrorKind::NotFound, "file handle not found"))?
                 .clone();
 
-            ctx.fs.sync_file(&path).map_err(Error::other)
+            ctx.fs.sync_file(&path).map_err(errno_error)
         })
     }
 
@@ -704,7 +722,7 @@ impl File {
                 .ok_or_else(|| Error::new(ErrorKind::NotFound, "file handle not found"))?
                 .clone();
 
-            ctx.fs.sync_file_data(&path).map_err(Error::other)
+            ctx.fs.sync_file_data(&path).map_err(errno_error)
         })
     }
 
@@ -884,7 +902,7 @@ impl File {
             let write_end = offset + buf.len() as u64;
             let additional = write_end.saturating_sub(current_len);
             if additional > 0 {
-                ctx.fs.check_space(additional).map_err(Error::other)?;
+                ctx.fs.check_space(additional).map_err(errno_error)?;
             }
 
             ctx.fs.write_file(&path, offset, buf, ctx.now);
@@ -1433,7 +1451,7 @@ pub fn set_permissions<P: AsRef<Path>>(path: P, perm: Permissions) -> Result<()>
     FsContext::current(|ctx| {
         ctx.fs
             .set_permissions(&path, perm.mode, ctx.now)
-            .map_err(Error::other)
+            .map_err(errno_error)
     })
 }
 
@@ -1446,7 +1464,7 @@ pub fn symlink<P: AsRef<Path>, Q: AsRef<Path>>(original: P, link: Q) -> Result<(
     FsContext::current(|ctx| {
         ctx.fs
             .create_symlink(&link, &original, ctx.now)
-            .map_err(Error::other)
+            .map_err(errno_error)
     })
 }
 
@@ -1547,7 +1565,7 @@ pub fn hard_link<P: AsRef<Path>, Q: AsRef<Path>>(original: P, link: Q) -> Result
     FsContext::current(|ctx| {
         ctx.fs
             .create_hard_link(&link, &original, ctx.now)
-            .map_err(Error::other)
+            .map_err(errno_error)
     })
 }
 
@@ -1598,7 +1616,7 @@ fn create_dir_with_mode<P: AsRef<Path>>(path: P, mode: u32) -> Result<()> {
     FsContext::current(|ctx| {
         ctx.fs
             .mkdir_with_mode(&path, ctx.now, mode)
-            .map_err(Error::other)
+            .map_err(errno_error)
     })
 }
 
@@ -1632,7 +1650,7 @@ fn create_dir_all_with_mode<P: AsRef<Path>>(path: P, mode: u32) -> Result<()> {
             }
             ctx.fs
                 .mkdir_with_mode(&dir, ctx.now, mode)
-                .map_err(Error::other)?;
+                .map_err(errno_error)?;
         }
         Ok(())
     })
@@ -1792,7 +1810,7 @@ pub fn remove_dir_all<P: AsRef<Path>>(path: P) -> Result<()> {
         remove_dir_contents_recursive(ctx.fs, &path)?;
 
         // Finally remove the directory itself
-        ctx.fs.rmdir(&path).map_err(Error::other)
+        ctx.fs.rmdir(&path).map_err(errno_error)
     })
 }
 
@@ -1806,10 +1824,10 @@ fn remove_dir_contents_recursive(fs: &mut crate::Fs, path: &Path) -> Result<()> 
             // Recursively remove subdirectory contents
             remove_dir_contents_recursive(fs, &entry_path)?;
             // Remove the now-empty subdirectory
-            fs.rmdir(&entry_path).map_err(Error::other)?;
+            fs.rmdir(&entry_path).map_err(errno_error)?;
         } else if fs.file_exists(&entry_path) || fs.symlink_exists(&entry_path) {
             // Remove file or symlink
-            fs.unlink(&entry_path).map_err(Error::other)?;
+            fs.unlink(&entry_path).map_err(errno_error)?;
         }
     }
 
